@@ -372,13 +372,20 @@ def fresh_array(name, dtype, shape, ranged=True):
     return arr
 
 
+_LIFT_CACHE = {}
+
+
 def from_numpy(a):
-    """concrete ndarray -> SArr (small arrays only: nested ITE over flat index)"""
+    """concrete ndarray -> SArr (small arrays only: z3 array literal over the flat index; identical contents share one term)"""
     a = np.asarray(a)
     if a.size > 4096:
         raise Unsupported("large concrete array lifted to symbolic")
     if a.dtype.kind == "c" or a.dtype.kind == "O":
         raise Unsupported(f"lifting {a.dtype} array")
+    key = (a.dtype.str, a.shape, a.tobytes())
+    hit = _LIFT_CACHE.get(key)
+    if hit is not None:
+        return SArr(a.dtype, a.shape, hit)
     vals = [term(v.item()) for v in a.ravel()]
     srt = sort_of(a.dtype)
     if a.dtype.kind == "f":
@@ -400,6 +407,7 @@ def from_numpy(a):
         for i, st in zip(idx, strides):
             flat = flat + i * st
         return z3.Select(arr, z3.simplify(flat))
+    _LIFT_CACHE[key] = elem
     return SArr(a.dtype, shape, elem)
 
 
